@@ -1,4 +1,5 @@
 import Ccp.Proofs.Edit
+import Ccp.Proofs.EditX
 /-!
 # C07 — after commit the tree is that of a fresh parse, for any edit history
 
@@ -233,6 +234,146 @@ theorem auto_never_stale (cfg : Cfg) (width : Nat) (ls : List Str) (ops : List O
     (step (run (init cfg true width ls) ops) .probe).2 = .ok () :=
   (probe_refuses_iff_stale _).2.2.mpr (auto_commit_always_fresh cfg width ls ops).2.1
 
+/-! ## the extended alphabet (`Ccp.Model.EditX`): `ConfigList.remove`, deleting an object that is gone,
+every guarded search entry point, line-object payloads, malformed calls -/
+
+/-- The base alphabet is embedded unchanged: same next state, same success, same error. -/
+theorem base_embedded (s : S) (op : Op) :
+    (EditX.step s (.base op)).1 = (step s op).1 ∧
+    ((EditX.step s (.base op)).2 = .ok () ↔ (step s op).2 = .ok ()) ∧
+    (∀ e, (EditX.step s (.base op)).2 = .error (.base e) ↔ (step s op).2 = .error e) :=
+  ⟨rfl, EditX.liftRes_ok _, fun e => EditX.liftRes_err _ e⟩
+
+/-- Every extended operation preserves the invariant, from every state. -/
+theorem stepX_preserves_fresh (s : S) (op : EditX.Op) :
+    (FreshInv s → FreshInv (EditX.step s op).1) ∧ (AutoInv s → AutoInv (EditX.step s op).1) :=
+  ⟨EditX.step_fresh s op, EditX.step_autoInv s op⟩
+
+/-- **Every history over the extended alphabet**: a reached state without uncommitted change holds
+exactly the tree a from-scratch parse of its current texts yields, and its objects carry the line
+numbers `0..n-1` in order. -/
+theorem runX_committed_fresh (cfg : Cfg) (auto : Bool) (width : Nat) (ls : List Str) (ops : List EditX.Op) :
+    let s := EditX.run (init cfg auto width ls) ops
+    s.cfg = cfg ∧
+    (s.dirty = false →
+      s.tree = parse cfg s.texts ∧ s.texts = s.tree.texts ∧ s.items = committedItems s.tree) := by
+  intro s
+  have hc : s.cfg = cfg := (EditX.run_frame (init cfg auto width ls) ops).1
+  refine ⟨hc, fun hd => ?_⟩
+  have h := EditX.run_fresh _ ops (Ccp.Edit.init_fresh cfg auto width ls) hd
+  rw [hc] at h
+  exact h
+
+/-- With auto-commit on, after every single extended operation — successful, refused or malformed —
+the state has no uncommitted change, is not stale and holds the tree of a fresh parse. -/
+theorem autoX_commit_always_fresh (cfg : Cfg) (width : Nat) (ls : List Str) (ops : List EditX.Op) :
+    let s := EditX.run (init cfg true width ls) ops
+    s.dirty = false ∧ s.stale = false ∧ s.tree = parse cfg s.texts ∧ s.texts = s.tree.texts := by
+  intro s
+  have ha : s.auto = true := (EditX.run_frame (init cfg true width ls) ops).2.1
+  have h1 := EditX.run_autoInv _ ops (init_auto cfg true width ls) ha
+  have h2 := (runX_committed_fresh cfg true width ls ops).2 h1.1
+  exact ⟨h1.1, h1.2, h2.1, h2.2.1⟩
+
+/-- Directly after an explicit `commit` at the end of any extended history the tree is that of a
+fresh parse. -/
+theorem explicit_commitX_fresh (cfg : Cfg) (auto : Bool) (width : Nat) (ls : List Str) (ops : List EditX.Op) :
+    let s := EditX.run (init cfg auto width ls) (ops ++ [.base .commit])
+    s.dirty = false ∧ s.stale = false ∧ s.tree = parse cfg s.texts ∧ s.texts = s.tree.texts := by
+  intro s
+  have hs : s = commit (EditX.run (init cfg auto width ls) ops) := by
+    simp only [s, EditX.run_append]; rfl
+  have hd : s.dirty = false := by rw [hs]; rfl
+  have h2 := (runX_committed_fresh cfg auto width ls (ops ++ [.base .commit])).2 hd
+  exact ⟨hd, by rw [hs]; rfl, h2.1, h2.2.1⟩
+
+/-- `ConfigList.remove(obj)` is `obj.delete()`: same next state, same outcome. -/
+theorem remove_is_delete (s : S) (h : Nat) :
+    EditX.step s (.remove h) = EditX.step s (.base (.delete h)) := rfl
+
+/-- … so on a state without uncommitted change it succeeds and removes exactly the object and its
+descendants (the texts before the auto-commit are the old ones without those positions). -/
+theorem remove_spec (s : S) (h : Nat) (hd : s.dirty = false) (hh : h < s.items.length) :
+    (EditX.step s (.remove h)).2 = .ok () ∧
+    (EditX.step s (.remove h)).1 =
+      autoCommit { s with items := eraseAll s.items (descendantsAndSelf s.tree h), dirty := true } := by
+  have hn : ¬ (h ≥ s.items.length) := by omega
+  simp [EditX.step, EditX.liftRes, Edit.step, hd, hn]
+
+/-- `obj.delete()` on an object of the last commit that is no longer in the list raises
+`ConfigListItemDoesNotExist` and changes nothing; on an object that is still there it is `delete`. -/
+theorem deleteAny_gone (s : S) (h : Nat) (hh : h < s.tree.size) (hp : posOf s.items h = none) :
+    EditX.step s (.deleteAny h) = (s, .error (.base .doesNotExist)) := by
+  have hn : ¬ (h ≥ s.tree.size) := by omega
+  simp [EditX.step, hn, hp]
+
+theorem deleteAny_present (s : S) (h p : Nat) (hh : h < s.tree.size) (hp : posOf s.items h = some p) :
+    EditX.step s (.deleteAny h) = EditX.step s (.base (.delete h)) := by
+  have hn : ¬ (h ≥ s.tree.size) := by omega
+  simp [EditX.step, hn, hp]
+
+/-- Which search entry points carry the guard: all of them except `CiscoConfParse.re_match_iter_typed`. -/
+theorem guarded_all_but_one (k : EditX.Search) : EditX.guarded k = false ↔ k = .ccpReMatchIterTyped := by
+  cases k <;> simp [EditX.guarded]
+
+/-
+FULL STATEMENT (what the property says: *every* search refuses on a stale state):
+  theorem search_refuses_iff_stale (s : S) (k : EditX.Search) :
+      (EditX.step s (.search k)).1 = s ∧
+      ((EditX.step s (.search k)).2 = .error (.base .notImplemented) ↔ s.stale = true) ∧
+      ((EditX.step s (.search k)).2 = .ok () ↔ s.stale = false)
+It is FALSE for the code as it is, for `k = .ccpReMatchIterTyped` (`search_unguarded_answers` below; known finding
+FC07a, proposed repair notes/proposed-fixes/C07-1.patch).  Proved: the statement for the fifteen guarded entry points.
+-/
+theorem search_refuses_iff_stale_partial (s : S) (k : EditX.Search) (hg : EditX.guarded k = true) :
+    (EditX.step s (.search k)).1 = s ∧
+    ((EditX.step s (.search k)).2 = .error (.base .notImplemented) ↔ s.stale = true) ∧
+    ((EditX.step s (.search k)).2 = .ok () ↔ s.stale = false) := by
+  have hs : EditX.step s (.search k) = EditX.liftRes (step s .probe) := by simp [EditX.step, hg]
+  rw [hs]
+  refine ⟨rfl, ?_, ?_⟩
+  · rw [EditX.liftRes_err]; exact (probe_refuses_iff_stale s).2.1
+  · rw [EditX.liftRes_ok]; exact (probe_refuses_iff_stale s).2.2
+
+/-- The model of the finding: `CiscoConfParse.re_match_iter_typed` answers in every state, stale or not. -/
+theorem search_unguarded_answers (s : S) :
+    EditX.step s (.search .ccpReMatchIterTyped) = (s, .ok ()) := rfl
+
+/-- A call with a malformed argument is rejected with the error class of the code and changes nothing. -/
+theorem malformed_rejected (s : S) (txt : Str) (k : Int) (after : Bool) :
+    EditX.step s (.insertBadIndex txt) = (s, .error (.base .valueError)) ∧
+    EditX.step s (.insertBadValue k) = (s, .error .typeError) ∧
+    EditX.step s (.listInsBadValue after) = (s, .error (.base .valueError)) ∧
+    EditX.step s .removeBadValue = (s, .error (.base .invalidParameters)) := ⟨rfl, rfl, rfl, rfl⟩
+
+/-- List-level `insert_before/after(regex, <line object>)`: refused with `ValueError` for an empty regex,
+otherwise the object's text is inserted at every matching line — the blank-payload refusal under
+`ignore_blank_lines` does not apply to a line object; whenever that refusal would not fire, the
+operation is the string form. -/
+theorem listInsObj_spec (s : S) (after emptyRx : Bool) (row : List Bool) (txt : Str) :
+    (emptyRx = true → EditX.step s (.listInsObj after emptyRx row txt) = (s, .error (.base .valueError))) ∧
+    (emptyRx = false → EditX.step s (.listInsObj after emptyRx row txt) =
+      (autoCommit { s with items := insertAtMatches after (fresh txt) s.items row, dirty := true }, .ok ())) ∧
+    ((isBlank txt && s.cfg.ignoreBlank) = false →
+      EditX.step s (.listInsObj after emptyRx row txt) =
+        EditX.step s (.base (if after then .listInsAfter emptyRx row txt else .listInsBefore emptyRx row txt))) := by
+  refine ⟨fun h => by simp [EditX.step, h], fun h => by simp [EditX.step, h], fun hb => ?_⟩
+  cases after <;> cases emptyRx <;> simp [EditX.step, EditX.liftRes, Edit.step, hb]
+
+/-- **Stale tree refuses, commit restores, over the extended alphabet** (auto-commit off): after a list
+`insert` and any further extended operations that are not `commit`, every guarded search raises
+`NotImplementedError`; after the `commit` it answers again. -/
+theorem staleX_refuses (s : S) (ha : s.auto = false) (k : Int) (txt : Str) (ops : List EditX.Op)
+    (hno : ∀ op ∈ ops, op ≠ .base .commit) (q : EditX.Search) (hg : EditX.guarded q = true) :
+    let s' := EditX.run (step s (.insert k txt)).1 ops
+    (EditX.step s' (.search q)).2 = .error (.base .notImplemented) ∧
+    (EditX.step (commit s') (.search q)).2 = .ok () := by
+  intro s'
+  have h1 : (step s (.insert k txt)).1.auto = false := by rw [(step_frame s _).2.1, ha]
+  have h2 := EditX.run_stale_keeps _ ops h1 (insert_sets_stale s ha k txt).2 hno
+  exact ⟨(search_refuses_iff_stale_partial s' q hg).2.1.mpr h2,
+         (search_refuses_iff_stale_partial (commit s') q hg).2.2.mpr rfl⟩
+
 /-! ## non-vacuity: a concrete config and concrete histories -/
 
 def exCfg : Cfg := { ios := true, delims := ['!'], ignoreBlank := false }
@@ -283,5 +424,41 @@ example : (run (init { exCfg with ignoreBlank := true } true 1 exLines)
 /-- `bootstrap_keeps_texts` needs its hypothesis -/
 example : (bootstrap { exCfg with ignoreBlank := true } ["a".toList, "".toList]).texts ≠ ["a".toList, "".toList] := by
   decide
+
+/-! ### the extended alphabet on concrete histories -/
+
+/-- `ConfigList.remove`, a malformed insert, a line-object payload and two searches, auto-commit on -/
+def exAutoX : List EditX.Op :=
+  [.remove 0, .insertBadValue 0, .listInsObj true false [true] " mtu 9000".toList, .search .findChildObjects,
+   .search .ccpReMatchIterTyped]
+
+example : (EditX.run (init exCfg true 1 exLines) exAutoX).texts =
+    ["!".toList, " mtu 9000".toList, "interface Eth10".toList] ∧
+    (EditX.run (init exCfg true 1 exLines) exAutoX).tree.parents = [0, 1, 2] := by decide
+example : (EditX.run (init exCfg true 1 exLines) exAutoX).tree
+    = parse exCfg (EditX.run (init exCfg true 1 exLines) exAutoX).texts :=
+  (autoX_commit_always_fresh exCfg 1 exLines exAutoX).2.2.1
+/-- hypotheses of `remove_spec` -/
+example : (init exCfg true 1 exLines).dirty = false ∧ 0 < (init exCfg true 1 exLines).items.length := by decide
+/-- hypotheses of `deleteAny_gone` / `deleteAny_present`: auto-commit off, object 4 popped and not yet committed -/
+def exPopped : S := (step (init exCfg false 1 exLines) (.pop 4)).1
+example : 4 < exPopped.tree.size ∧ posOf exPopped.items 4 = none ∧ posOf exPopped.items 3 = some 3 ∧
+    (EditX.step exPopped (.deleteAny 4)).2 = .error (.base .doesNotExist) := by decide
+/-- hypotheses of `search_refuses_iff_stale_partial` / `staleX_refuses`, and the finding: on the same stale
+state a guarded search refuses and `CiscoConfParse.re_match_iter_typed` answers -/
+example : EditX.guarded .findObjects = true ∧ EditX.guarded .allParents = true := by decide
+example : ∀ op ∈ [EditX.Op.remove 1, .search .reSearch, .insertBadIndex []], op ≠ EditX.Op.base .commit := by simp
+def exStaleX : S := EditX.run (init exCfg false 1 exLines) [.base (.insert 2 " no shutdown".toList), .removeBadValue]
+example : exStaleX.stale = true ∧
+    (EditX.step exStaleX (.search .findParentObjects)).2 = .error (.base .notImplemented) ∧
+    (EditX.step exStaleX (.search .ccpReMatchIterTyped)).2 = .ok () ∧
+    (EditX.step (commit exStaleX) (.search .findParentObjects)).2 = .ok () := by decide
+/-- `listInsObj_spec`: a blank line-object payload under `ignore_blank_lines` is inserted (and dropped again by the
+auto-commit), where the string form is refused -/
+def exIgnX : S := init { exCfg with ignoreBlank := true } true 1 exLines
+example : (isBlank " ".toList && exIgnX.cfg.ignoreBlank) = true ∧
+    (EditX.step exIgnX (.listInsObj false false [true] " ".toList)).2 = .ok () ∧
+    (EditX.step exIgnX (.base (.listInsBefore false [true] " ".toList))).2 = .error (.base .invalidParameters) ∧
+    (EditX.step exIgnX (.listInsObj false false [true] " ".toList)).1.texts = exIgnX.texts := by decide
 
 end Ccp.C07
